@@ -80,18 +80,20 @@ def tok(v, bool_as_num=False):
         return ["n", fbits(1.0 if v else 0.0)] if bool_as_num else ["b", bool(v)]
     if isinstance(v, (int, np.integer)):
         f = float(v)
-        return ["n", fbits(f if f != 0 else 0.0)] if int(f) == int(v) else ["I", str(int(v))]
+        return ["n", fbits(f if (f != 0 or not bool_as_num) else 0.0)] if int(f) == int(v) else ["I", str(int(v))]
     if isinstance(v, (float, np.floating)):
         if math.isnan(v):
             return ["m"]
-        return ["n", fbits(float(v) if v != 0 else 0.0)]
+        return ["n", fbits(float(v) if (v != 0 or not bool_as_num) else 0.0)]
     if isinstance(v, str):
         return ["s", v]
     if isinstance(v, (pd.Timestamp, np.datetime64)) or hasattr(v, "isoformat"):
         t = pd.Timestamp(v)
         if t is pd.NaT:
             return ["m"]
-        return ["d", int(t.value)]
+        from .cells import dt_ns
+
+        return ["d", dt_ns(t)]
     return ["o", type(v).__name__ + ":" + repr(v)]
 
 
